@@ -68,6 +68,13 @@ FUNCTIONS = [
     (DBC, 'DBAPI', 'sqlrepr', 'conn_sqlrepr'),
     (DBC, 'DBAPI', '_insertSQL', 'insertSQL'),
     (DBC, 'DBAPI', '_SO_update', 'SO_update'),
+    (CONV, None, 'TimedeltaConverter', 'TimedeltaConverter'),
+    (SQLB, 'SQLExpression', 'startswith', 'Expr_startswith'),
+    (SQLB, 'SQLExpression', 'endswith', 'Expr_endswith'),
+    (SQLB, 'SQLExpression', 'contains', 'Expr_contains'),
+    (SQLB, 'SQLObjectField', 'startswith', 'Field_startswith'),
+    (SQLB, 'SQLObjectField', 'endswith', 'Field_endswith'),
+    (SQLB, 'SQLObjectField', 'contains', 'Field_contains'),
 ]
 
 # module-level names a translated function may call, per file: name -> where it must come from
@@ -78,7 +85,8 @@ CALLABLE = {
     CONV: {'sqlrepr': ('def', None), 'lookupConverter': ('registry', None)},
     SQLB: {'sqlrepr': ('from', 'converters'), 'quote_str': ('from', 'converters'),
            'unquote_str': ('from', 'converters'), '_quote_like_special': ('def', None),
-           'LIKE': ('def', None), '_LikeQuoted': ('def', None)},
+           'LIKE': ('def', None), '_LikeQuoted': ('def', None), 'STARTSWITH': ('def', None),
+           'ENDSWITH': ('def', None), 'CONTAINSSTRING': ('def', None)},
     DBC: {'sqlrepr': ('from', 'converters')},
     MAIN: {},
 }
